@@ -7,7 +7,7 @@ FAMILY = "run"
 
 MANIFEST = {
  "level": "other",
- "text": "Proved about the Gallina model of run_program.rs + ChiaDialect (Props/C08.v), for every program, environment, budget, set of cryptographic primitives and every flag set without NEW_COST_MODEL and NO_UNKNOWN_OPS: whenever the run on ChiaDialect succeeds, the run on the extension-hiding dialect (softfork_extension always Default, 4-byte opcodes unknown) succeeds with the same cost and the same result (C08_run). Ingredients, each a theorem: the unknown-operator cost rule charges the opcodes 13d61f00 / 1c3a8f00 exactly SECP256K1_VERIFY_COST / SECP256R1_VERIFY_COST for every argument list (constants and opcodes re-read from the source by the translator and pinned, so retuning one breaks the obligation) and a successful secp call returns nil (C08_secp_cost, C08_secp_value, C08_op); the hiding dialect skips a softfork call for any extension in one step with nil and the declared cost (C08_hiding_guard); on the aware dialect a guard that completes ends in exactly that state at exactly that cost (C08_guard_agree, from the guard frame theorem shared with C31). Not proved: equality of the allocator atom/pair/heap counts - the tree-store model has no allocator (a guard's full checkpoint restore resets the counts on the allocator model, C12). That clause is decided by running every generated program on ChiaDialect and on an extension-hiding wrapper dialect on the implementation, comparing result, cost and the three counts whenever the aware run succeeds.",
+ "text": "Proved about the Gallina model of run_program.rs + ChiaDialect (Props/C08.v), for every program, environment, budget, set of cryptographic primitives and every flag set without NEW_COST_MODEL and NO_UNKNOWN_OPS: whenever the run on ChiaDialect succeeds, the run on the extension-hiding dialect (softfork_extension always Default, 4-byte opcodes unknown) succeeds with the same cost and the same result (C08_run). Ingredients, each a theorem: the unknown-operator cost rule charges the opcodes 13d61f00 / 1c3a8f00 exactly SECP256K1_VERIFY_COST / SECP256R1_VERIFY_COST for every argument list (constants and opcodes re-read from the source by the translator and pinned, so retuning one breaks the obligation) and a successful secp call returns nil (C08_secp_cost, C08_secp_value, C08_op); the hiding dialect skips a softfork call for any extension in one step with nil and the declared cost (C08_hiding_guard); on the aware dialect a guard that completes ends in exactly that state at exactly that cost (C08_guard_agree, from the guard frame theorem shared with C31). The allocator-counter clause is proved on the allocator models of C12 (C08_counters = C31_counters: after enter - any body restoring only its own checkpoints - leave, the arena's three counts are those at guard entry, which is what the unaware node has since it skips the guard without allocating); the composition of the tree-store interpreter model with the allocator model is not proved. That clause is also decided by running every generated program on ChiaDialect and on an extension-hiding wrapper dialect on the implementation, comparing result, cost and the three counts whenever the aware run succeeds.",
  "note": vlib.NOTE_COMMON + " Level 'other': the counter clause is observed, not proved.",
  "technique": "Coq proof (run-level simulation aware => hiding with completed guards as black boxes via the frame lemma; secp cost = unknown-op cost over translated constants) + model/implementation differential run on both dialects + implementation search aware vs hiding dialect incl. allocator counters",
 }
